@@ -313,10 +313,13 @@ def _const_seq(module_top, e):
 
 
 def might_unroll(node: ast.AST, module_top=None) -> bool:
-    return any(isinstance(n, ast.For) and _const_seq(module_top, n.iter) is not None for n in ast.walk(node))
+    return any(isinstance(n, ast.For) and (_const_seq(module_top, n.iter) is not None or
+                                           (isinstance(n.iter, ast.Attribute) and isinstance(n.iter.value, ast.Name) and n.iter.attr.isupper() or
+                                            (isinstance(n.iter, ast.Attribute) and isinstance(n.iter.value, ast.Name) and n.iter.attr.lstrip("_").isupper())))
+               for n in ast.walk(node))
 
 
-def unroll_literal_loops(fn: ast.AST, module_top=None, class_consts=None) -> bool:
+def unroll_literal_loops(fn: ast.AST, module_top=None, class_consts=None, class_names=()) -> bool:
     """`class_consts`: name -> tuple display bound once in the class body (`_TABLE = ((..), (..))`), reachable as self.NAME / cls.NAME"""
     changed = False
     class_consts = class_consts or {}
@@ -371,7 +374,7 @@ def unroll_literal_loops(fn: ast.AST, module_top=None, class_consts=None) -> boo
                     return ast.Tuple([ast.Tuple([k, x], ast.Load()) for k, x in zip(v.keys, v.values)], ast.Load())
                 return ast.Tuple(list(v.keys if it.func.attr == "keys" else v.values), ast.Load())
             return None
-        if isinstance(it, ast.Attribute) and isinstance(it.value, ast.Name) and it.value.id in ("self", "cls") and it.attr in class_consts:
+        if isinstance(it, ast.Attribute) and isinstance(it.value, ast.Name) and (it.value.id in ("self", "cls") or it.value.id in class_names) and it.attr in class_consts:
             return class_consts[it.attr]
         return _const_seq(module_top, loop.iter)
 
